@@ -1,5 +1,8 @@
 mod c01;
 mod c08;
+mod c09;
+mod c10;
+mod c20;
 mod ev;
 mod gen;
 mod jq;
@@ -20,6 +23,9 @@ fn main() {
     match cmd {
         "c01" => c01::main(tier),
         "c08" => c08::main(tier),
+        "c09" => c09::main(tier),
+        "c10" => c10::main(tier),
+        "c20" => c20::main(tier),
         "eval" => {
             // vmc eval '<program>' '<input as jq program>' [inputs as jq programs...]
             jq::quiet_panics();
